@@ -127,6 +127,7 @@ template <typename T> static void op_mask(const Case& c, Outcome& o) {
 }
 template <typename T> static void op_fill(const Case& c, Outcome& o) {
   const int w = sizeof(T) * 8; uint64_t xp = c.w[0] & wmask(w); int first = (int)(c.w[1] / 128), cnt = (int)(c.w[1] % 128);
+  if (first >= w) { o.nontrivial = false; return; }   // FirstBit must name an existing bit (first == width only pairs with count 0 and is not a bit position)
   uint64_t f = cnt == 0 ? 0 : ((wmask(cnt) << first) & wmask(w));
   uint64_t g1 = pat(glm::bitfieldFillOne(val<T>(xp), first, cnt)), g0 = pat(glm::bitfieldFillZero(val<T>(xp), first, cnt));
   o.res(g1, g0); o.exp(xp | f, xp & ~f); o.cls(cnt == 0 ? 0 : cnt == w ? 1 : 2);
@@ -135,11 +136,10 @@ template <typename T> static void op_fill(const Case& c, Outcome& o) {
   glm::vec<3, T> v(val<T>(lane(xp, 0, w)), val<T>(lane(xp, 1, w)), val<T>(lane(xp, 2, w))); glm::vec<3, T> r1 = glm::bitfieldFillOne(v, first, cnt), r0 = glm::bitfieldFillZero(v, first, cnt);
   for (int k = 0; k < 3; ++k) if (pat(r1[k]) != (lane(xp, k, w) | f) || pat(r0[k]) != (lane(xp, k, w) & ~f)) { o.res(pat(r1[k]), pat(r0[k])); o.exp(lane(xp, k, w) | f, lane(xp, k, w) & ~f); o.bad(3, "bitfieldFill vec overload"); return; }
 }
-// legacy model of the recorded rotate defect: the bodies of Left and Right are exchanged, evaluated with C++ integer promotion
+// legacy model of the recorded rotate defect: the bodies of Left and Right are exchanged
 template <typename T> static uint64_t legacy_rot(uint64_t xp, int s, bool right_named) {
-  const int w = sizeof(T) * 8; const int cs = (w - s) & (w - 1);     // complementary count, reduced modulo the width
-  if (w >= 32) { typedef T TT; TT x = val<TT>(xp); TT r = right_named ? (TT)((x << (TT)s) | (x >> (TT)cs)) : (TT)((x >> (TT)s) | (x << (TT)cs)); return pat(r); }
-  int x = (int)val<T>(xp); int r = right_named ? ((x << s) | (x >> cs)) : ((x >> s) | (x << cs)); return pat((T)r);
+  const int w = sizeof(T) * 8; xp &= wmask(w); if (s == 0) return xp;
+  return right_named ? (((xp << s) | (xp >> (w - s))) & wmask(w)) : (((xp >> s) | (xp << (w - s))) & wmask(w));   // the function named Right rotates left and vice versa
 }
 template <typename T> static void op_rotate(const Case& c, Outcome& o) {
   const int w = sizeof(T) * 8; uint64_t xp = c.w[0] & wmask(w); int s = (int)c.w[1];
